@@ -199,6 +199,13 @@ fn run_inner(c: &Case) -> Result<u64, String> {
         for e in 0..edges {
             gates[e].clone().connect(gates[e + 1].clone(), mk_chan(e));
             gates[e + 1].clone().connect(gates[e].clone(), None);
+            // ... also when the repeated call names another channel than the hop was declared with
+            let other = || Some(Channel::new(ChannelMetrics::new(0, Duration::from_millis(700), Duration::ZERO, ChannelDropBehaviour::Drop)));
+            if e % 2 == 0 {
+                gates[e].clone().connect(gates[e + 1].clone(), other());
+            } else {
+                gates[e + 1].clone().connect(gates[e].clone(), other());
+            }
         }
     }
     // ---- structure
